@@ -416,5 +416,8 @@ def run(ctx):
     ctx.rule("panic-audit")
     a = panics.Audit(f).run([B + "::is_legal"])
     panics.report(ctx, a, PANIC_TABLE, "panic")
+    # look-up functions equal geometry (owned by C05): the atoms of the specifications above stand on it
+    from . import c05
+    c05.run_lookups(ctx)
     ctx.assumptions += ["reference function == generator on accepted boards: a pinned piece can never capture or block a checker (two distinct lines through the king meet only at the king) -- argued, DESIGN.md C04",
                         "is_legal's pawn branch inherits C01's batch specification of the pawn generator"]
